@@ -587,6 +587,24 @@ def spec_elapsed(n):
     return f"{s}s"
 
 
+def overflow_sequence(rng, n_fail=131):
+    """More failures than the observers keep exceptions for (128): one scope, every call fails, a periodic rendering between
+    each 'running' and its 'failed' — the last rendering must still show the final count."""
+    scope = gen_scope(rng, "plain")
+    t = Fraction(0)
+    events = [["n", rat(t), "tot", "run", 0, n_fail]]
+    for k in range(n_fail):
+        t += 1
+        events.append(["n", rat(t), "run", "run", 0, 0])
+        t += 1
+        events.append(["w", rat(t), rat(t)])
+        t += 1
+        events.append(["n", rat(t), "fai", "run", 0, k % 6])
+    t += 1
+    return {"shape": "run", "flavour": "plain", "scopes": [scope], "start": rat(Fraction(0)), "events": events,
+            "final": ["w", rat(t), rat(t)], "max_interval": rat(Fraction(300))}
+
+
 def run_deterministic(kind, seq, driver=None):
     """Returns (violation text | None, disagreement text | None, info)."""
     cache = {}
@@ -993,7 +1011,7 @@ def explore(ctx, n_scale=1.0, monitors_only=False):
     by_shape = {}
     for i in range(n_seq):
         shape = shapes[i % len(shapes)]
-        seq = gen_sequence(rng, ctx.tier, shape)
+        seq = overflow_sequence(rng) if i == 1 else gen_sequence(rng, ctx.tier, shape)
         seqs.append(seq)
         by_shape[shape] = by_shape.get(shape, 0) + 1
         for kind in KINDS:
